@@ -111,6 +111,20 @@ def run(tier):
     suite.fact('Copy.subs keeps its kind', type(gates.Copy().subs(x, 1)) is gates.Copy and type(gates.Match().subs(x, 1)) is gates.Match
                and gates.Copy().subs(x, 1).dagger() == gates.Match(), functions=['quantum.gates.ClassicalGate.subs'],
                what='substitution keeps the kind of boxes without parameters')
+    # formal sums of diagrams (what grad returns): free symbols are those of the terms, lambdify == subs
+    with suite.guard('sum.free_symbols / lambdify', ['cat.Sum']):
+        sm_ = (gates.Ket(0) >> Rz(x)) + (gates.Ket(0) >> Rz(x + y) >> Rx(y))
+        suite.fact('sum.free_symbols', sm_.free_symbols == {x, y}, functions=['cat.Sum'],
+                   what='the free symbols of a sum are those of its terms (got %r)' % (sm_.free_symbols,))
+        lam_, sub_ = sm_.lambdify(x, y)(0.25, 0.5), sm_.subs([(x, 0.25), (y, 0.5)])
+        suite.fact('sum.lambdify.no_symbols_left', not lam_.free_symbols and not any(t.free_symbols for t in lam_.terms),
+                   functions=['cat.Sum'], what='calling the lambdified sum substitutes in every term (got %r)' % (lam_,))
+        suite.identity('sum.lambdify==subs', arr(lam_.eval()), arr(sub_.eval()), functions=['cat.Sum'],
+                       what='lambdified sum called on values evaluates like the substituted sum')
+        tsum = tensor.Box('v', Dim(1), Dim(2), [x, y]) + tensor.Box('w', Dim(1), Dim(2), [y, x * y])
+        suite.fact('tensor.sum.free_symbols', tsum.free_symbols == {x, y}, functions=['cat.Sum'])
+        suite.identity('tensor.sum.lambdify==subs', arr(tsum.lambdify(x, y)(2, 3).eval()), arr(tsum.subs([(x, 2), (y, 3)]).eval()),
+                       functions=['cat.Sum'])
     # numpy arrays as box data
     with suite.guard('tensor.Box(numpy data).subs', ['cat.rmap']):
         nbx = tensor.Box('v', Dim(1), Dim(2), numpy.array([x, 2 * y], dtype=object))
